@@ -42,6 +42,7 @@ pub const CRASH: u64 = 39; // a            (harness cancels the loop task of a)
 pub const STREAM_CLOSE: u64 = 40; // a      (harness lets the stream of actor a end)
 
 pub const BCAST_BEGIN: u64 = 41; // a ty
+pub const BCAST_END: u64 = 47; // a ty    (send_to_children returned)
 pub const TIMER_SLEEP: u64 = 42; // a k d    (timer task k of a starts sleeping d)
 
 pub const BROKER: u64 = 44; // b what a h   (what: 0 publish begins, 1 holds, 2 target, 3 published, 4 subscribe, 5 unsubscribe)
